@@ -186,6 +186,8 @@ func (p *printer) sep() {
 			}
 		case p.lay.Mode == 2 && h%7 == 0:
 			p.raw("   ")
+		case p.lay.Mode == 2 && h%11 == 0:
+			p.raw(" \r ") // a lone carriage return is white space, not a line break
 		default:
 			p.raw(" ")
 		}
